@@ -29,6 +29,11 @@ CHECKS = [
   "text": _WORKER + " Safety oracle: bodies in progress <= tasks_limit at every instant. Progress oracle: no free slot + deliverable message "
           "without a start for longer than a per-broker pickup allowance; all jobs start within a stated bound ('eventually' = within the bound).",
   "note": _MODEL + _SRV},
+ {"property_id": "C13", "level": "exploration", "design_ref": "DESIGN.md §4 C13",
+  "technique": "scenario property-based testing of stored results against the model's latest-execution outcome, plus fault-injection differential on store_bucket",
+  "text": _WORKER + " Fault sub-check makes the k-th result store_bucket call raise and requires dispositions and final places to equal "
+          "the fault-free run of the same generated scenario.",
+  "note": _MODEL + _SRV + " AMQP scenarios use in-memory bucket brokers."},
  {"property_id": "C10", "level": "exploration", "design_ref": "DESIGN.md §4 C10",
   "technique": "scenario property-based testing of messages_limit (bound, self-stop, untouched remainder) and of the run-on-enqueue testing modifier",
   "text": _WORKER + " Liveness is decided as 'returns within a 45 s virtual horizon'.",
